@@ -11,6 +11,7 @@ import (
 	"sync/atomic"
 	"time"
 
+	simplefixgo "github.com/b2broker/simplefix-go"
 	"github.com/b2broker/simplefix-go/fix"
 	"github.com/b2broker/simplefix-go/session"
 	"github.com/b2broker/simplefix-go/storages/memory"
@@ -48,9 +49,24 @@ func idFor(c *vk.Ctx, i int) []byte {
 	return []byte(gen.RandString(r, 40, []string{"112", "10", "35", "34", "9"}))
 }
 
+var can *rig.Canary
+
+// stuck: a step that takes microseconds has not finished when the 5 s watchdog fired. On a machine whose scheduler was
+// on time during those seconds the handler loop is blocked for good: the TestRequest of this step (or the next one)
+// is never answered. With a late scheduler nothing is concluded.
+func stuck(c *vk.Ctx, since time.Time, role rig.Role, what, ctx string, i int) {
+	if jit := can.MaxBetween(since, time.Now()); jit > 100*time.Millisecond {
+		c.Inconclusive(fmt.Sprintf("watchdog (scheduler oversleep %v)", jit))
+		return
+	}
+	c.Violate("C14/testrequest-never-answered/handler-loop-stuck", fmt.Sprintf("%s session: 5 s after %s was handed to the session the handler loop had not finished serving it; no TestRequest is answered any more (context: %s)", role, what, ctx), map[string]interface{}{"role": role.String(), "context": ctx, "index": i, "seed": c.Seed})
+}
+
 func main() {
 	c := vk.Init("C14")
-	c.Rule("TestReqID values: every single byte value except SOH (255), 40 decoys ('112=', '10=000', '35=A', '=', spaces, digits, NUL, high bytes, text resembling other fields), lengths up to 10000, random strings; each injected at every kind of position of a logged-on history (directly after logon, several in a row, between Heartbeats / application messages / rejected messages / local sends), both roles; every fifth session on a counter store that fails once to record the TestRequest's incoming number; plus real-time sessions (N=1) in which the session's own TestRequest is pending when the peer's TestRequests arrive; plus real-time sessions observed for 2.4 s after an answer (the periodic Heartbeats that follow must not carry the TestReqID again); plus sessions on the full stack (scripted net.Conn, connection reader/writer) given identifiers of 1..70000 bytes incl. every length 4088..4104 and 8184..8200, and bursts of 40 TestRequests against a slowly reading peer (handler buffers 0/1/4/10; answers must come in request order). Oracle per TestRequest step: exactly one message emitted in that step (so before any later reply), MsgType 0, its 112 value (reference tokenizer) byte-equal to the ID. distinct = distinct (ID bytes, role, context); non-trivial = all")
+	can = rig.StartCanary()
+	defer can.Stop()
+	c.Rule("TestReqID values: every single byte value except SOH (255), 40 decoys ('112=', '10=000', '35=A', '=', spaces, digits, NUL, high bytes, text resembling other fields), lengths up to 10000, random strings; each injected at every kind of position of a logged-on history (directly after logon, several in a row, between Heartbeats / application messages / rejected messages / local sends), both roles; every fifth session on a counter store that fails once to record the TestRequest's incoming number; every fifth session with an application OnError handler that sends an alert through the session, and Rejects failing on transient store faults before some of the TestRequests; plus real-time sessions (N=1) in which the session's own TestRequest is pending when the peer's TestRequests arrive; plus real-time sessions observed for 2.4 s after an answer (the periodic Heartbeats that follow must not carry the TestReqID again); plus sessions on the full stack (scripted net.Conn, connection reader/writer) given identifiers of 1..70000 bytes incl. every length 4088..4104 and 8184..8200, and bursts of 40 TestRequests against a slowly reading peer (handler buffers 0/1/4/10; answers must come in request order). Oracle per TestRequest step: exactly one message emitted in that step (so before any later reply), MsgType 0, its 112 value (reference tokenizer) byte-equal to the ID. distinct = distinct (ID bytes, role, context); non-trivial = all")
 	n := c.Pick(700, 12000)
 	vk.Parallel(n, runtime.NumCPU(), func(i int) {
 		r := c.Rand("c14", int64(i))
@@ -62,6 +78,19 @@ func main() {
 		if i%5 == 2 {
 			flaky = &flakyCounter{Storage: memory.NewStorage()}
 			scfg.Counter, scfg.Messages, scfg.SentinelBarrier = flaky, flaky, true
+		}
+		// every fifth session: the application reacts to errors the session reports (OnError) by sending an alert
+		// through the same session; before some of the TestRequests a Reject of the session fails on a transient store
+		// fault (message store or counter store), which is such an error
+		var reacting *rig.FlakyStore
+		if i%5 == 4 {
+			reacting = rig.NewFlakyStore()
+			scfg.Counter, scfg.Messages, scfg.SentinelBarrier = reacting, reacting, true
+			scfg.AfterRun = func(_ *simplefixgo.DefaultHandler, s *session.Session) {
+				s.OnError(func(error) {
+					_ = s.Send(fixgen.CreateMarketDataRequestReject("alert"))
+				})
+			}
 		}
 		rg, err := rig.NewStepRig(scfg)
 		if err != nil {
@@ -96,16 +125,31 @@ func main() {
 			if i < 255+40+12 && k == 0 {
 				id = idFor(c, i)
 			}
+			if reacting != nil && r.Intn(2) == 0 {
+				if r.Intn(2) == 0 {
+					atomic.StoreInt32(&reacting.FailNextSave, 1)
+				} else {
+					atomic.StoreInt32(&reacting.FailNextOutgoingNumber, 1)
+				}
+				t0 := time.Now()
+				if res := rg.Inbound(rig.BadChecksum(p.Heartbeat())); res.TimedOut {
+					stuck(c, t0, role, "the damaged Heartbeat whose Reject failed on a store fault (the application's OnError handler sends through the session)", strings.Join(ctx, ","), i)
+					return
+				}
+				ctx = append(ctx, "reject-failed-on-store-fault+application-alert")
+				c.Count("reported_send_errors_the_application_reacted_to_by_sending", 1)
+			}
 			msg := p.Msg("1", fixref.Field{Tag: rig.TTestReqID, Val: id})
 			if flaky != nil && r.Intn(2) == 0 {
 				atomic.StoreInt32(&flaky.armed, 1)
 				ctx = append(ctx, "counter-store-fault")
 				c.Count("testrequests_whose_incoming_number_could_not_be_recorded", 1)
 			}
+			t0 := time.Now()
 			res := rg.Inbound(msg)
 			ctx = append(ctx, "TR")
 			if res.TimedOut {
-				c.Inconclusive("watchdog")
+				stuck(c, t0, role, "the TestRequest", strings.Join(ctx, ","), i)
 				return
 			}
 			c.Eval(vk.Hash64(id, []byte(role.String()), []byte(strings.Join(ctx, ","))), true)
